@@ -26,6 +26,12 @@ func (s *ByteBlockSource) Size() uint64 {
 	return uint64(len(s.Source))
 }
 func (s *ByteBlockSource) ReadBlock(off uint64, sz int) ([]byte, error) {
+	if off >= uint64(len(s.Source)) {
+		return nil, io.EOF
+	}
+	if off+uint64(sz) > uint64(len(s.Source)) {
+		sz = len(s.Source) - int(off)
+	}
 	return s.Source[off : off+uint64(sz)], nil
 }
 
@@ -116,6 +122,9 @@ func NewReader(src BlockSource, name string) (*Reader, error) {
 	if err != nil {
 		return nil, err
 	}
+	if len(headBlock) < headerSize(2)+1 {
+		return nil, fmt.Errorf("reftable: file too small")
+	}
 	if bytes.Compare(headBlock[:4], magic[:]) != 0 {
 		return nil, fmt.Errorf("reftable: got magic %q, want %q", headBlock[:4], magic)
 	}
@@ -125,6 +134,9 @@ func NewReader(src BlockSource, name string) (*Reader, error) {
 		return nil, fmt.Errorf("reftable: unsupported version %d", version)
 	}
 
+	if src.Size() < uint64(headerSize(version)+footerSize(version)) {
+		return nil, fmt.Errorf("reftable: file too small")
+	}
 	r := &Reader{
 		version: version,
 		size:    src.Size() - uint64(footerSize(version)),
@@ -137,6 +149,9 @@ func NewReader(src BlockSource, name string) (*Reader, error) {
 		return nil, err
 	}
 
+	if len(footBlock) < footerSize(version) {
+		return nil, fmt.Errorf("reftable: short footer")
+	}
 	if 0 != bytes.Compare(headBlock[:headerSize(version)], footBlock[:headerSize(version)]) {
 		return nil, fmt.Errorf("reftable: start header %q != tail header %q",
 			headBlock[:headerSize(version)], footBlock[:headerSize(version)])
